@@ -29,6 +29,7 @@ mod c14;
 mod dce;
 mod gocomp;
 mod namecat;
+mod gopp;
 mod probe;
 mod rng;
 mod sexp;
@@ -70,6 +71,7 @@ fn main() {
         "c02names" => namecat::main(&args),
         "unify" => unify::main(&args),
         "solve" => solve::main(&args),
+        "gopp" => gopp::main(&args),
         "probe" => probe::main(&args),
         "stages" => probe::stages(&args),
         "golden" => probe::golden(&args),
